@@ -127,7 +127,9 @@ class NodeValidator():
         #print()
         #print(f"validate_node {node} {path} {roles} {problems}")
 
-        if not node or not isinstance(node, dict):
+        if not isinstance(node, dict):
+            if node is not None:
+                problems.append(f'{path} should be an Object')
             return
 
         # May have more roles based on field presence/value etc
